@@ -23,7 +23,7 @@ RULE = ("case = one execution of a corpus plan with a suspension (no helper plan
         "non-trivial = the suspension was accepted while a plan message was outstanding")
 ASSUMPTIONS = ["release times are virtual-time timers on the loop", "the replay part is judged by the C04 automaton"]
 REQUIRED_COUNTERS = {"executions": 500, "suspensions_judged": 400, "with_pre_post": 150, "stops_checked": 150,
-                     "justifications_checked": 100, "two_call_histories": 10, "rewindable_flag_checks": 300}
+                     "justifications_checked": 100, "two_call_histories": 10, "rewindable_flag_checks": 300, "same_turn_pairs": 10}
 MANIFEST = {
     "technique": "ordering oracle over the merged message / ledger / virtual-time log for every accepted suspension, on an "
                  "exhaustive suspension-coordinate sweep (single, overlapping, with helper plans, across call boundaries)",
@@ -70,6 +70,10 @@ def gen_cases(tier, seed):
             for (k1, k2) in [("suspend", "suspend"), ("suspend-pp", "suspend")]:
                 cases.append({"plan": p_, "kind": k1, "kind2": k2, "pairs": 10, "seed": seed,
                               "spec_extra": {"record_interruptions": True}})
+    # two suspension requests in ONE event-loop turn (two suspenders tripping on the same upstream event)
+    for p_ in (PLANS_Q[:3] if tier == "quick" else PLANS_T):
+        cases.append({"plan": p_, "kind": "suspend", "kind2": "suspend-pp", "pairs": 10 if tier == "quick" else 30, "seed": seed,
+                      "same_turn": True, "spec_extra": {"record_interruptions": True}})
     for first in ("clearcp", "scan", "norun"):
         cases.append({"two_call": first, "then": "scan", "seed": seed})
     return cases
@@ -192,6 +196,12 @@ def judge(ex, ref, case):
                        and "interruption" in e[2]["data"]]
                 if rec.count(justification) != open_runs:
                     problems.append(("justification-not-recorded", f"records {rec} for {open_runs} open run(s)"))
+    # two requests made in the same event-loop turn while the plan runs: both must be served (each gets its helper plan)
+    if case.get("same_turn") and len(li) == 2 and all(x["state"] == "running" and x["region"] == "body" for x in li):
+        counters["same_turn_pairs"] = 1
+        aborted = any(e[0] == "state" and e[1] in ("aborting", "stopping", "halting") for e in log)
+        if len(starts) < 2 and not aborted:
+            problems.append(("suspension-request-lost:same-turn", f"2 requests landed at {li[0]['coord']}, {len(starts)} suspension(s) served"))
     aprob, _ = run_automaton(log)
     # when everything is over the engine's rewindable flag is what the same plan leaves without any suspension
     # (a suspension switches rewinding off while it is in effect and must restore it, also when suspensions overlap)
